@@ -13,6 +13,8 @@ class ConstantExpressionEvaluator:
             value = self.eval_binop(expr)
         elif isinstance(expr, expressions.UnaryOperator):
             value = self.eval_unop(expr)
+        elif isinstance(expr, expressions.TernaryOperator):
+            value = self.eval_ternop(expr)
         elif isinstance(expr, expressions.VariableAccess):
             value = self.eval_variable_access(expr)
         elif isinstance(expr, expressions.NumericLiteral):
@@ -82,11 +84,12 @@ class ConstantExpressionEvaluator:
 
     def eval_unop(self, expr):
         """Evaluate unary operation."""
-        if expr.op in ["-", "~"]:
+        if expr.op in ["-", "~", "!"]:
             a = self.eval_expr(expr.a)
             op_map = {
                 "-": lambda x: -x,
                 "~": lambda x: ~x,
+                "!": lambda x: int(not x),
             }
             value = op_map[expr.op](a)
         elif expr.op == "&":
@@ -98,21 +101,43 @@ class ConstantExpressionEvaluator:
     def eval_take_address(self, expr):
         raise NotImplementedError("take address operator: &")
 
+    def eval_ternop(self, expr):
+        """Evaluate the conditional operator a ? b : c."""
+        if self.eval_expr(expr.a):
+            value = self.eval_expr(expr.b)
+        else:
+            value = self.eval_expr(expr.c)
+        return value
+
     def eval_binop(self, expr):
         """Evaluate binary operator."""
-        lhs = self.eval_expr(expr.a)
-        rhs = self.eval_expr(expr.b)
         op = expr.op
+        lhs = self.eval_expr(expr.a)
+
+        # Logical operators evaluate the right side only when needed:
+        if op == "&&":
+            return int(bool(lhs) and bool(self.eval_expr(expr.b)))
+        elif op == "||":
+            return int(bool(lhs) or bool(self.eval_expr(expr.b)))
+
+        rhs = self.eval_expr(expr.b)
 
         op_map = {
             "+": lambda x, y: x + y,
             "-": lambda x, y: x - y,
             "*": lambda x, y: x * y,
+            "<": lambda x, y: int(x < y),
+            ">": lambda x, y: int(x > y),
+            "<=": lambda x, y: int(x <= y),
+            ">=": lambda x, y: int(x >= y),
+            "==": lambda x, y: int(x == y),
+            "!=": lambda x, y: int(x != y),
         }
 
         # Ensure division is integer division:
         if expr.typ.is_integer:
-            op_map["/"] = lambda x, y: x // y
+            op_map["/"] = int_div
+            op_map["%"] = lambda x, y: x - y * int_div(x, y)
             op_map[">>"] = lambda x, y: x >> y
             op_map["<<"] = lambda x, y: x << y
             op_map["|"] = lambda x, y: x | y
@@ -123,3 +148,9 @@ class ConstantExpressionEvaluator:
 
         value = op_map[op](lhs, rhs)
         return value
+
+
+def int_div(x, y):
+    """Integer division as C defines it: truncate towards zero."""
+    q = abs(x) // abs(y)
+    return q if (x < 0) == (y < 0) else -q
